@@ -68,7 +68,7 @@ def group(draw, name, in_class=False):
             if i == idef:
                 nd = draw(st.integers(1, 2))
                 for k in range(nd):
-                    params.append("int d%d = %d" % (k, k + 1))
+                    params.append("int d%d = %d" % (k, k))        # (the first default value is 0)
                 g["has_default"] = True
                 if draw(st.booleans()):
                     # a complete list (one entry per arity), a partial list (the remaining arities get the
